@@ -1126,12 +1126,15 @@ def _rel_addr(n):
     return out
 
 
-NP, NS = 2, 4  # primitive / supercell atoms of the model scenarios
-_P2S = [0, 2]
+# primitive / supercell atoms of the model scenarios: MORE primitive atoms (3) than lattice points (N = 2), so that
+# p2s_map = [0, 2, 4] contains an index below num_patom (row/prefix confusions between the compact row i and the
+# full row p2s[i] collide with another atom's row)
+NP, NS = 3, 6
+_P2S = [0, 2, 4]
 # images of a primitive atom are deliberately NOT consecutive in supercell order (interleaved species with a
 # centring primitive matrix give such maps), and p2s is not a prefix
-_S2P = [0, 2, 0, 2]
-_S2PP = [0, 1, 0, 1]
+_S2P = [0, 4, 2, 0, 4, 2]
+_S2PP = [0, 2, 1, 0, 2, 1]
 _MULTI = []
 for _k in range(NS * NP):
     _MULTI += [2 if _k % 3 == 0 else 1, 0]
